@@ -24,7 +24,7 @@ def parse_text(text):
 
 # ---------------------------------------------------------------- generation + round trip
 def h_make(ctx, uidlen, sec):
-    version = ctx.int("version", 0, 1099)
+    version = ctx.int("version", -1099, 1099)
     security = ctx.enum("security", ["NONE", "TYPE1", "OTHER"]) if sec else None
     old = ctx.str("old", uidlen, UIDCH)
     new = ctx.str("new", uidlen, UIDCH)
@@ -150,7 +150,7 @@ HARNESSES = dict(make=h_make, make_str=h_make_str, corrupt_value=h_corrupt_value
                  valid_tokens=h_valid_tokens)
 
 META = dict(
-    bounds=dict(version="0..1099 (int) and 1-4 character texts", uids="1-3, 36 and 37 characters over [A-Za-z0-9_-]",
+    bounds=dict(version="-1099..1099 (int) and 1-4 character texts", uids="1-3, 36 and 37 characters over [A-Za-z0-9_-]",
                 corruption="one field value replaced (1-4 symbolic chars; 37 for UIDs), one field omitted, two adjacent fields swapped"),
     models=["re (real OFXHeaderV1/V2/XML patterns)", "io.BytesIO", "bytes.decode/str.encode ascii", "str.join/format", "int()/str()"],
     assumptions=["COMPRESSION is optional in the implementation's pattern and is not counted as mandatory"],
